@@ -99,6 +99,13 @@ def judge_fork(ctx, cmd, line):
         ctx.violation("sys_life:fork:owner-files-removed:" + proto, "xcm_cleanup in the child removed the owner's UXF socket file or control files: " + line, rep)
     if f["accepts_again"] != "1":
         ctx.violation("sys_life:fork:owner-server-broken:" + proto, "after xcm_cleanup in the child the owner's server socket no longer accepts: " + line, rep)
+    if f.get("epoll_same", "1") != "1":
+        ctx.violation("sys_life:fork:owner-epoll-changed:" + proto, "xcm_cleanup in the forked child changed the kernel-side interest set of one of the owner's "
+                      "sockets (the epoll instance is shared through fork): " + line, rep)
+    if f.get("dead_signalled", "-1") == "0":
+        ctx.violation("sys_life:fork:owner-closed-connection-silenced:" + proto, "after xcm_cleanup in the forked child the owner's closed connection is no longer "
+                      "signalled on its fd: " + line, rep)
+    ctx.count("life.fork.dead%s" % f.get("dead_signalled", "?"))
     if f["pending"] not in ("-", "ETIMEDOUT"):
         ctx.violation("sys_life:fork:owner-timer-lost:" + proto, "the owner's pending connect was not woken by its connect timeout after the child's xcm_cleanup "
                       "(%s after %s s): %s" % (f["pending"], f["waited"], line), rep)
